@@ -208,3 +208,71 @@ func zzH_C20_late() {
 	cancel()
 	zzQuiesce()
 }
+
+// C20/detector-sweep (also C02: a flood of connection attempts must not stop the detector):
+// one source probes M distinct TCP ports in one burst, then one more probe whose kind is
+// arbitrary (a repeated TCP port, a UDP port, ICMP); one quiet-period tick. The scan is
+// reported with exactly the distinct pairs, and a probe after the report is reported too
+// (the detector goroutine, which has no recover, is still running).
+func zzH_C20_sweep() {
+	rec := &zzRecChan{}
+	c := &Canary{knockChan: make(chan interface{}, 100), events: rec}
+	ctx, cancel := context.WithCancel(context.Background())
+	zzTimers(0)
+	go c.knockDetector(ctx)
+	m := zzParam("M", 150)
+	for i := 0; i < m; i++ {
+		c.knockChan <- KnockTCPPort{SourceHardwareAddr: zzMacS, DestinationHardwareAddr: zzMacD, SourceIP: zzSrcs[0], DestinationIP: zzDst, DestinationPort: uint16(1000 + i)}
+	}
+	extra := 0
+	switch zzLen(0, 2) {
+	case 0:
+		c.knockChan <- KnockTCPPort{SourceHardwareAddr: zzMacS, DestinationHardwareAddr: zzMacD, SourceIP: zzSrcs[0], DestinationIP: zzDst, DestinationPort: uint16(1000 + m/2)}
+	case 1:
+		c.knockChan <- KnockUDPPort{SourceHardwareAddr: zzMacS, DestinationHardwareAddr: zzMacD, SourceIP: zzSrcs[0], DestinationIP: zzDst, DestinationPort: uint16(1000 + m/2)}
+		extra = 1
+	case 2:
+		c.knockChan <- KnockICMP{SourceHardwareAddr: zzMacS, DestinationHardwareAddr: zzMacD, SourceIP: zzSrcs[0], DestinationIP: zzDst}
+		extra = 1
+	}
+	zzTimers(1)
+	zzQuiesce()
+	if !zzSymbolic() {
+		time.Sleep(5600 * time.Millisecond)
+	}
+	seen := map[string]int{}
+	total := 0
+	for _, ev := range rec.evs {
+		em := event.ToMap(ev)
+		if em["category"] != "portscan" {
+			continue
+		}
+		ports, _ := em["portscan.ports"].([]string)
+		for _, p := range ports {
+			seen[p]++
+			total++
+		}
+	}
+	zzAssert(total == m+extra, "the port-scan events of a sweep list as many entries as distinct pairs were probed")
+	for i := 0; i < m; i++ {
+		zzAssert(seen["tcp/"+strconv.Itoa(1000+i)] == 1, "every swept TCP port is listed exactly once")
+	}
+	// the detector survives the sweep: a later probe is still reported
+	rec.evs = nil
+	c.knockChan <- KnockTCPPort{SourceHardwareAddr: zzMacS, DestinationHardwareAddr: zzMacD, SourceIP: zzSrcs[1], DestinationIP: zzDst, DestinationPort: 80}
+	zzTimers(1)
+	zzQuiesce()
+	if !zzSymbolic() {
+		time.Sleep(5600 * time.Millisecond)
+	}
+	later := 0
+	for _, ev := range rec.evs {
+		em := event.ToMap(ev)
+		if em["category"] == "portscan" && em["source-ip"] == zzSrcs[1].String() {
+			later++
+		}
+	}
+	zzAssert(later == 1, "a probe after a sweep is still reported: the detector goroutine did not stop")
+	cancel()
+	zzQuiesce()
+}
